@@ -108,6 +108,20 @@ func Inject(t *rapid.T, s *Schema, rule, placement string) *Injection {
 	}
 	bad := &Field{Name: "bad_field", Number: 10, Kind: KString, Card: Singular}
 	inj.Offenders = []string{"Offender", "bad_field"}
+	// shape varies where the misplaced annotation sits: a plain field, a list, a map, or a member of a
+	// real oneof (which has presence but no optional keyword)
+	shape := func(label string) {
+		switch rapid.SampledFrom([]string{"singular", "singular", "repeated", "map", "oneof"}).Draw(t, label) {
+		case "repeated":
+			bad.Card = Repeated
+		case "map":
+			bad.Card, bad.MapKey = Map, KString
+		case "oneof":
+			off.Oneofs = append(off.Oneofs, &Oneof{Name: "pick_one"})
+			bad.Oneof = "pick_one"
+			off.Fields = append(off.Fields, &Field{Name: "other_variant", Number: 11, Kind: KInt32, Card: Singular, Oneof: "pick_one"})
+		}
+	}
 	switch rule {
 	case "unwrap_non_repeated":
 		if rapid.Bool().Draw(t, "unwrapmsg") {
@@ -127,9 +141,7 @@ func Inject(t *rapid.T, s *Schema, rule, placement string) *Injection {
 		off.Fields = append(off.Fields, bad, plain(12))
 	case "nullable_non_optional":
 		bad.Kind = pickKind(t, ScalarKinds)
-		if rapid.Bool().Draw(t, "nullrep") {
-			bad.Card = Repeated
-		}
+		shape("nullshape")
 		bad.EnsureAnn().Nullable = true
 		off.Fields = append(off.Fields, bad)
 	case "nullable_message":
@@ -138,6 +150,7 @@ func Inject(t *rapid.T, s *Schema, rule, placement string) *Injection {
 		off.Fields = append(off.Fields, bad)
 	case "empty_behavior_scalar":
 		bad.Kind = pickKind(t, ScalarKinds)
+		shape("ebshape")
 		bad.EnsureAnn().EmptyBehavior = int32(rapid.IntRange(1, 3).Draw(t, "eb"))
 		off.Fields = append(off.Fields, bad)
 	case "empty_behavior_repeated":
@@ -153,11 +166,13 @@ func Inject(t *rapid.T, s *Schema, rule, placement string) *Injection {
 			bad.Kind, bad.TypeRef = KMessage, helper("NotATimestamp", plain(1))
 		} else {
 			bad.Kind = pickKind(t, []Kind{KString, KInt64, KInt32, KDouble})
+			shape("tsshape")
 		}
 		bad.EnsureAnn().TimestampFormat = int32(rapid.IntRange(1, 4).Draw(t, "tsf"))
 		off.Fields = append(off.Fields, bad)
 	case "bytes_encoding_wrong_type":
 		bad.Kind = pickKind(t, []Kind{KString, KInt64, KBool, KTimestamp})
+		shape("beshape")
 		bad.EnsureAnn().BytesEncoding = int32(rapid.IntRange(1, 5).Draw(t, "be"))
 		off.Fields = append(off.Fields, bad)
 	case "flatten_repeated":
